@@ -61,12 +61,12 @@ CHECKS = {
 
  "C10": dict(engine="gxzsim", cat="fault_enumeration", ref="DESIGN.md §4 C10, §2.6",
    technique="deterministic simulation of the gxz process on a simulated file system: the unmodified main() of a scratch copy of cmd/gxz runs in-process over verif/sim/simos (os, os/signal, term redirected by a go/ast import rewrite + build overlay); every file-system mutation of a run is enumerated as kill point (before / after / mid-write) and as ENOSPC/EIO fault point, reads fail at seeded offsets; data-loss invariants evaluated on the simulated directory after every kill and every run",
-   text="Per scenario the crash/fault space is enumerated completely (every mutating fs operation x {kill before, kill after, kill mid-write, ENOSPC with partial write, EIO} + read faults); scenarios ({compress,decompress} x {xz,lzma} x subsets of -k/-f/-c x names with spaces/known/unknown suffix/.txz/.tlz x valid/truncated/damaged/garbage input, existing target, stale temp file, bystander file) are sampled. Invariants: the data exists in one complete form at every kill instant and after every run; failing runs exit non-zero, leave the input untouched, nothing partial under the target name; no temporary file after a non-killed run.",
-   note="Process-kill semantics (completed operations durable), not power loss. simos stands for the kernel (flat namespace, modes, umask, O_EXCL, atomic rename). gxz's flag set/logger/os are process-global, so the batch is sharded over 16 child processes, one simulation at a time each."),
+   text="Per scenario the crash/fault space is enumerated completely (every mutating fs operation x {kill before, kill after, kill mid-write, ENOSPC with partial write, EIO} + read faults); scenarios ({compress,decompress} x {xz,lzma} x subsets of -k/-f/-c x names with spaces/known/unknown suffix/.txz/.tlz x valid/truncated/damaged/garbage input, operand a symbolic link incl. one whose referent carries the target name, existing target, stale temp file, bystander file) are sampled. Invariants: the data exists in one complete form at every kill instant and after every run; failing runs exit non-zero, leave the input untouched, nothing partial under the target name; no temporary file after a non-killed run.",
+   note="Process-kill semantics (completed operations durable), not power loss. simos stands for the kernel (flat namespace, modes, umask, symbolic links, O_EXCL, atomic rename) and is validated against the real kernel on every run: sampled scenarios are repeated with the really built gxz binary in a real directory under tools/ptstep (ptrace; file-system changing system calls numbered over all threads) - fault-free call sequence == simulated operation log, and the same kill / ENOSPC / EIO plan index must leave exactly the simulated tree, status and stdout; real SIGINT runs are judged by the invariants. A disagreement is exit 2 (simulator fidelity), never a violation. gxz's flag set/logger/os are process-global, so the batch is sharded over 16 child processes, one simulation at a time each."),
  "C15": dict(engine="gxzsim", cat="exploration", ref="DESIGN.md §4 C15, §2.6",
    technique="deterministic simulation of gxz invocation histories on a simulated directory (unmodified main() in-process over the simulated os), compared after every invocation with an executable model of the documented command line; outputs judged by independent decoders and liblzma, compressed inputs from liblzma / reference encoders",
-   text="Seeded exploration of directory states x histories of 1-3 invocations x argument vectors (all listed flags, long/bundled forms, '--', operands before options, 0-3 operands with failing members, mixed formats under auto-detection, odd names). Compared: exit status class, resulting tree (names, modes, contents: decompressed exact, compressed by reference decoding), stdout.",
-   note="The model encodes the documented semantics and the xz-utils conventions the property names; stderr is not compared; bool-literal file names that gflag would swallow are not generated."),
+   text="Seeded exploration of directory states x histories of 1-3 invocations x argument vectors (all listed flags, long/bundled forms, '--', operands before options, 0-3 operands with failing members, mixed formats under auto-detection, odd names). Operands include '-' among files, symbolic links (followed only with -f), directories, and a file left under the temporary output name. Compared: exit status class, resulting tree (names, modes, link targets, contents: decompressed exact, compressed by reference decoding), stdout.",
+   note="The simulated OS is validated against the real kernel on every run (fault-free histories repeated with the really built binary; byte-for-byte equal trees, status, stdout). The model encodes the documented semantics and the xz-utils conventions the property names; stderr is not compared; bool-literal file names that gflag would swallow are not generated."),
 
  "C14": dict(engine="conc", cat="exploration", ref="DESIGN.md §4 C14",
    technique="deterministic simulation of N caller tasks (each owning its own xz/LZMA/LZMA2 writer or reader) under a seeded lock-step scheduler that decides at every API call and every sink/source call which task proceeds - replayable, shrinkable schedules - with each task's complete observable result compared to its solo run; plus the same task sets run unsynchronised in a binary built with the Go race detector",
